@@ -29,8 +29,8 @@ Definition at1 (tol k v : Q) : Q -> Q := fun p => if Qle_bool (Qabs (k - p)) tol
 Record case := C12case {
   c_axis : Q; c_lcfs : Q; c_bvr : Q; c_bvm : Q;
   c_x : Q; c_y : Q; c_z : Q;
-  c_sqrt : list (Q * Q);          (* (argument as the implementation computed it, libm sqrt) *)
-  c_r : Q;                        (* sqrt(x*x + y*y) as the implementation computes it *)
+  c_sqrt : list (Q * Q);          (* (exact x^2+y^2, radius used by the implementation's mapper); (b_r^2+b_z^2 in floats, libm sqrt) *)
+  c_r : Q;                        (* the radius the implementation's axisymmetric mapper handed to the 2-D function *)
   c_psi : Q; c_poly : Q; c_dr : Q; c_dz : Q;      (* the four 2-D functions at (c_r, c_z) *)
   c_pkey : Q;                     (* the implementation's psi_n(c_r, c_z): key of the 1-D tables *)
   c_f : Q; c_prof : Q; c_vt : Q; c_vp : Q; c_vn : Q;   (* f profile and the four profiles at c_pkey *)
@@ -38,7 +38,10 @@ Record case := C12case {
   c_out : Q; c_outv : vec;
   (* outputs of the implementation *)
   o_psin : Q; o_inside : Q; o_map2d : Q; o_map3d : Q;
-  o_b : vec; o_tor : vec; o_pol : vec; o_nor : vec; o_v2 : vec; o_v3 : vec }.
+  o_b : vec; o_tor : vec; o_pol : vec; o_nor : vec; o_v2 : vec; o_v3 : vec;
+  (* 0, or the 3-D stage (4 = map3d, 10 = map_vector3d) whose mapper used a radius other than c_r: that
+     stage is compared in a second case built on its own radius *)
+  c_skip : Z }.
 
 (* tolerance on psi_n: the code interpolates the normalised grid, the model normalises the
    interpolated psi; both are cubic interpolations of data of size |psi|, |psi_axis| divided by
@@ -66,10 +69,11 @@ Definition ovclose (rel abs : Q) (m : option vec) (i : vec) : bool :=
   match m with Some v => vclose rel abs v i | None => false end.
 Definition veqb (m i : vec) : bool := Qeq_bool (vx m) (vx i) && Qeq_bool (vy m) (vy i) && Qeq_bool (vz m) (vz i).
 
-(* every sqrt the running system took: s >= 0 and s*s within 2^-48 (relative) of the argument;
+(* every square root the running system took (sqrt, or hypot for the mapper radius): s >= 0 and s*s within
+   2^-49 (relative) of the argument, i.e. s within 2^-50 of the exact root -- any last-bit choice passes;
    cos/sin: (c, s) * r within 2^-40 r of (x, y) *)
 Definition sqrt_entry_ok (e : Q * Q) : bool :=
-  Qle_bool 0 (snd e) && Qle_bool (Qabs (snd e * snd e - fst e)) (pow2 (-48) * Qabs (fst e)).
+  Qle_bool 0 (snd e) && Qle_bool (Qabs (snd e * snd e - fst e)) (pow2 (-49) * Qabs (fst e)).
 Definition oracles_ok (c : case) : bool :=
   forallb sqrt_entry_ok (c_sqrt c) &&
   (let cc := fst (c_cs c) in let ss := snd (c_cs c) in let r := c_r c in
@@ -98,13 +102,13 @@ Definition check_case (c : case) : Z :=
   else if ambiguous c then (-1)%Z
   else if negb (Qeq_bool (inside_lcfs E r z) (o_inside c)) then 2%Z
   else if negb (Qeq_bool (map2d E prof (c_out c) r z) (o_map2d c)) then 3%Z
-  else if negb (Qeq_bool (map3d E prof (c_out c) (c_x c) (c_y c) z) (o_map3d c)) then 4%Z
+  else if negb (Z.eqb (c_skip c) 4) && negb (Qeq_bool (map3d E prof (c_out c) (c_x c) (c_y c) z) (o_map3d c)) then 4%Z
   else if negb (vclose rel_v 0 (b_field E r z) (o_b c)) then 5%Z
   else if negb (veqb (toroidal_vector r z) (o_tor c)) then 6%Z
   else if negb (ovclose rel_v 0 (poloidal_vector E r z) (o_pol c)) then 7%Z
   else if negb (ovclose rel_v 0 (surface_normal E r z) (o_nor c)) then 8%Z
   else if negb (ovclose 0 (rel_v * scale) (map_vector2d E vt vp vn (c_outv c) r z) (o_v2 c)) then 9%Z
-  else if negb (ovclose 0 (rel_v * (scale + vmaxabs (c_outv c))) (map_vector3d E vt vp vn (c_outv c) (c_x c) (c_y c) z) (o_v3 c)) then 10%Z
+  else if negb (Z.eqb (c_skip c) 10) && negb (ovclose 0 (rel_v * (scale + vmaxabs (c_outv c))) (map_vector3d E vt vp vn (c_outv c) (c_x c) (c_y c) z) (o_v3 c)) then 10%Z
   else 0%Z.
 
 (* ---- derivative grids: the implementation's d psi interpolator evaluated at a grid node against
